@@ -164,3 +164,43 @@ Section Redundant.
     rewrite gen_red_fold_true. unfold tup. reflexivity.
   Qed.
 End Redundant.
+
+(* ---- chunked_iter --------------------------------------------------------------- *)
+Section Chunked.
+  Variables (size : nat) (do_fill : bool) (fill_val : K).
+  Let fill : option K := if do_fill then Some fill_val else None.
+  Let idf : list K -> list K := fun x => x.
+
+  Lemma gen_chunked_while : forall fuel it out,
+    option_map snd (Gchunked_iter_while fuel size do_fill fill_val idf (it, out))
+    = option_map (app out) (chunk_loop fuel size fill it).
+  Proof.
+    induction fuel as [|fuel IH]; intros it out; [reflexivity|].
+    cbn [Gchunked_iter_while chunk_loop]. unfold Gchunked_iter_step.
+    destruct (firstn size it) as [|c cs] eqn:E.
+    - cbn [is_nil negb option_map snd]. rewrite app_nil_r. reflexivity.
+    - cbn [is_nil negb]. rewrite <- E. rewrite firstn_all.
+      assert (Hcur : (if (length (firstn size it) <? size) && do_fill
+                      then (true, (skipn size it, out ++ [idf (firstn size it ++ repeat fill_val (size - length (firstn size it)))]))
+                      else (true, (skipn size it, out ++ [idf (firstn size it)])))
+                     = (true, (skipn size it,
+                               out ++ [match fill with
+                                       | Some f => if length (firstn size it) <? size
+                                                   then firstn size it ++ repeat f (size - length (firstn size it))
+                                                   else firstn size it
+                                       | None => firstn size it
+                                       end]))).
+      { unfold fill, idf. destruct do_fill, (length (firstn size it) <? size); reflexivity. }
+      rewrite Hcur. rewrite IH.
+      destruct (chunk_loop fuel size fill (skipn size it)) as [rest|]; cbn [option_map]; [|reflexivity].
+      rewrite <- app_assoc. reflexivity.
+  Qed.
+
+  Lemma gen_chunked_is_loop fuel src :
+    Gchunked_iter fuel src size do_fill fill_val idf = chunk_loop fuel size fill src.
+  Proof.
+    unfold Gchunked_iter. pose proof (gen_chunked_while fuel src []) as H.
+    destruct (Gchunked_iter_while fuel size do_fill fill_val idf (src, [])) as [[it out]|];
+      destruct (chunk_loop fuel size fill src); cbn [option_map snd app] in H; congruence.
+  Qed.
+End Chunked.
